@@ -34,6 +34,8 @@ fn plan(tier: Tier) -> Vec<Workload> {
         Workload::new("adapter", tier.pick(20_000, 300_000)),
         // the work of one call must not depend on the VALUES it computes with
         Workload::new("values", tier.pick(4_000, 60_000)),
+        // lines typed at the prompt obey the same rule, with or without a breakpoint pending
+        Workload::new("immediate", tier.pick(6_000, 100_000)),
     ]
 }
 
@@ -436,6 +438,92 @@ fn run_case(ctx: &Ctx, index: u64, rep: &mut Report) {
             rep.count("values.statements");
             rep.nontrivial(hash_str(&line));
         }
+        "immediate" => {
+            // a program suspended by STOP or by a host break; then a multi-statement line typed at the prompt.
+            // Twin: the same history plus an edit (which drops the breakpoint and keeps the variables).
+            let stop_at = 1 + rng.below(4);
+            let program = [
+                "10 A = 1 : B$ = \"s\" : DIM T(3)".to_string(),
+                format!("20 FOR I = 1 TO 5 : A = A + I : IF I = {} THEN STOP", stop_at),
+                "30 NEXT I".to_string(),
+                "40 PRINT \"done\"; A".to_string(),
+            ];
+            let typed: String = match rng.below(8) {
+                0 => "PRINT A : PRINT A + 1".into(),
+                1 => "X = 1 : Y = 2 : PRINT X + Y : PRINT B$".into(),
+                2 => "FOR K = 1 TO 3 : PRINT K : NEXT K".into(),
+                3 => "FOR K = 1 TO 2 STEP 0 : Q = Q + 1 : NEXT K".into(),
+                4 => "PRINT \"a\"; : PRINT \"b\" : PRINT \"c\";".into(),
+                5 => "T(1) = 5 : T(2) = T(1) * 2 : PRINT T(2) : PRINT 1/0 : PRINT \"not reached\"".into(),
+                6 => ": : PRINT 1 : : PRINT 2".into(),
+                _ => {
+                    let g = prog::generate(&mut rng, &GenOpts { inputs: false, stops: false, functions: false, max_main_blocks: 1, ..GenOpts::default() });
+                    g.prog.lines.iter().map(|l| l.body_text()).filter(|b| !b.contains("GOTO") && !b.contains("GOSUB") && !b.contains("THEN")).take(2).collect::<Vec<_>>().join(" : ")
+                }
+            };
+            let host_break = rng.coin();
+            let build = |edit: bool| -> Session {
+                let mut s = Session::new();
+                s.keep_log = false;
+                for l in &program {
+                    s.call(Op::Line(l.clone()));
+                }
+                s.call(Op::Line("RUN".into()));
+                let mut n = 0;
+                while !s.poisoned && s.state() == InterpreterState::Running && n < 400 {
+                    if host_break && n == 7 {
+                        s.call(Op::Break);
+                        break;
+                    }
+                    s.call(Op::Cont);
+                    n += 1;
+                }
+                if edit {
+                    s.call(Op::Line("9999 REM drops the breakpoint".into()));
+                }
+                s
+            };
+            let mut a = build(false);
+            let mut b = build(true);
+            let case = || json!({"program": program, "typed": typed, "suspended_by": if host_break { "host break" } else { "STOP" }});
+            let pending = a.snapshot().breakpoint.is_some();
+            if pending {
+                rep.count("immediate.breakpoint_pending");
+            }
+            let run = |s: &mut Session| -> Vec<(usize, String, String)> {
+                let mut v = vec![];
+                if s.poisoned || s.state() != InterpreterState::Idle {
+                    return v;
+                }
+                let mut rec = s.call(Op::Line(typed.clone())).clone();
+                loop {
+                    let prints = rec.outs.iter().filter(|o| matches!(o, Out::Print(_))).count();
+                    v.push((prints, format!("{:?}", rec.outs), format!("{:?} {:?}", rec.state, rec.res.outcome())));
+                    if s.poisoned || !rec.res.is_ok() || s.state() != InterpreterState::Running || v.len() >= 120 {
+                        break;
+                    }
+                    rec = s.call(Op::Cont).clone();
+                }
+                v
+            };
+            let (va, vb) = (run(&mut a), run(&mut b));
+            flush_trips(ctx, rep, index, &a, case);
+            flush_trips(ctx, rep, index, &b, case);
+            if let Some(k) = va.iter().position(|c| c.0 > 1) {
+                ctx.violation(rep, "C09", "immediate-two-prints", index,
+                    format!("call {} of the typed line `{}` (breakpoint pending: {}) produced {} PRINT records: {}", k + 1, typed, pending, va[k].0, va[k].1), case());
+            } else if va != vb && !a.poisoned && !b.poisoned {
+                let k = va.iter().zip(vb.iter()).position(|(x, y)| x != y).unwrap_or(va.len().min(vb.len()));
+                ctx.violation(rep, "C09", "immediate-calls-differ", index,
+                    format!("the typed line `{}` takes {} calls with a breakpoint pending and {} calls without; first difference at call {}: {:?} vs {:?}",
+                        typed, va.len(), vb.len(), k + 1, va.get(k), vb.get(k)), case());
+            } else {
+                rep.add("immediate.calls_compared", va.len() as u64);
+                if va.len() >= 3 {
+                    rep.nontrivial(hash_str(&format!("imm|{}|{}|{}", typed, stop_at, host_break)));
+                }
+            }
+        }
         other => panic!("unknown workload {}", other),
     }
 }
@@ -446,6 +534,7 @@ fn finalize(_tier: Tier, rep: &mut Report) -> Finalize {
                bounds: programs of random token lines: per call at most one PRINT record, at most 1 + (#THEN + #ELSE on the line) trace records, all naming the line the call started on. \
                work: for programs without user-defined functions every call's token-cursor reads <= 30 x (tokens on the executing line + 1). nonterm: six non-terminating programs driven 10000 turns with a break + CONT at a random turn. \
                values: single statements with huge / special operand values (whole-number powers of 1, -1, 0, 2 with exponents up to 10^300, INT/ABS/RND of them, FOR bounds, DIM sizes): the call returns within the token-read budget and the worker's CPU-time budget (a logical watchdog: CPU time of the calling thread, not wall time) and satisfies the work bound. \
+               immediate: a multi-statement line typed at the prompt while a program is suspended (STOP or host break) takes the same calls, with the same records per call, as in a twin session whose breakpoint was dropped by an edit; never two PRINT records in one call; a non-terminating typed line stays interruptible. \
                adapter: G-prog programs run through the Web adapter (JsInterpreter::start_evaluating / continue_evaluating, TRACE on in half of the cases): per call at most one PRINT record and at most 1 + max(#THEN + #ELSE of any line) trace records, and as many calls as the core interpreter needs for the same run. \
                Non-trivial (turns): >= 50 turns compared in a program that executed an IF and a NEXT; every nonterm run counts. Distinct by program hash.".into(),
         floors: vec![
@@ -456,6 +545,8 @@ fn finalize(_tier: Tier, rep: &mut Report) -> Finalize {
             ("nonterm.breaks".into(), 50),
             ("adapter.calls".into(), 200_000),
             ("values.statements".into(), 3_000),
+            ("immediate.calls_compared".into(), 15_000),
+            ("immediate.breakpoint_pending".into(), 3_000),
             ("distinct_nontrivial".into(), 300),
         ],
         assumptions: vec![
